@@ -151,6 +151,7 @@ class Executor:
         self.discharged = 0
         self.back_states = None
         self.templates = []            # template invariants: functions poly -> poly (candidate facts t(v) >= 0)
+        self.struct_templates = {}     # ADT def -> fn({field name: value}) -> [(guard 0/1 poly | None, poly >= 0)]
         self.no_merge = False          # keep every path separate (used for path-wise summaries)
         self.abstract_defs = set()     # crate bodies deliberately kept abstract (layered proofs)
 
@@ -1277,6 +1278,15 @@ class Executor:
         if isinstance(v, Agg) and all(isinstance(x, Agg) and len(x.fields) == len(v.fields) for x in vals):
             for i, f in enumerate(v.fields):
                 self.transfer_leaf_facts(ms, f, [x.fields[i] for x in vals], group, depth + 1)
+            if v.kind == "adt" and v.name in self.struct_templates and all(x.name == v.name for x in vals):
+                mc = self.struct_cands(v)
+                per = [self.struct_cands(x) for x in vals]
+                for ti, (g, q) in enumerate(mc):
+                    if all(ti < len(pc) and self.cand_holds(s_.facts, pc[ti][0], pc[ti][1]) for pc, s_ in zip(per, group)):
+                        if g is None:
+                            ms.facts.add_fact_ge0(q)
+                        else:
+                            ms.facts.add_conditional(g, q)
 
     def call_single(self, st, fr, callee, subst, args, dest_ty, span):
         """call that must yield one continuing state: several return paths of the callee are
@@ -1383,10 +1393,43 @@ class Executor:
             self.loops[lid]["exits"] = sorted(exits)
         return rets, exits
 
+    def struct_fields(self, v):
+        names = [f["name"] for f in self.F.adts[v.name]["variants"][0]["fields"]]
+        return {n: v.fields[i] for i, n in enumerate(names) if i < len(v.fields)}
+
+    def struct_leaves(self, root, path, v, out, depth=0):
+        if depth > 4 or not isinstance(v, Agg):
+            return
+        if v.kind == "adt" and v.name in self.struct_templates:
+            out.append((root, path, v))
+        if v.kind in ("adt", "tuple") and (v.kind == "tuple" or (v.name in self.F.adts and self.F.adts[v.name]["kind"] == "struct")):
+            for i, f in enumerate(v.fields):
+                self.struct_leaves(root, path + (("f", i, None),), f, out, depth + 1)
+
+    def cand_holds(self, facts, guard, q):
+        if guard is None:
+            return facts.entails_ge0(facts.simplify(q), 3, 2) is not None
+        g = facts.simplify(guard)
+        gv = g.const_value()
+        if gv == 0:
+            return True
+        if gv == 1:
+            return facts.entails_ge0(facts.simplify(q), 3, 2) is not None
+        f2 = facts.copy()
+        if not f2.assume(g, 1):
+            return True
+        return f2.entails_ge0(f2.simplify(q), 3, 2) is not None
+
+    def struct_cands(self, v):
+        try:
+            return self.struct_templates[v.name](self.struct_fields(v))
+        except (KeyError, AttributeError, Undecided, TypeError):
+            return []
+
     def template_invariants(self, st, written, backs, prev):
         """Houdini over the template facts: (location key -> set of template indices) that hold at
         loop entry and at every back edge of the dry run (assuming the previous candidate set)."""
-        if not self.templates:
+        if not self.templates and not self.struct_templates:
             return None
         out = {}
         saved, self.write_log = self.write_log, None
@@ -1397,7 +1440,8 @@ class Executor:
                 except Undecided:
                     continue
                 leaves = []
-                self.int_leaves(st, root, path, v0, leaves)
+                if self.templates:
+                    self.int_leaves(st, root, path, v0, leaves)
                 for (r, p, v) in leaves:
                     if v.signed or v.bits > 32:
                         continue
@@ -1420,6 +1464,36 @@ class Executor:
                         if ok:
                             keep.add(ti)
                     out[key] = frozenset(keep)
+                if self.struct_templates:
+                    sl = []
+                    self.struct_leaves(root, path, v0, sl)
+                    for (r, p, sv) in sl:
+                        key = ("S", r, tuple((s_[0], s_[1]) for s_ in p))
+                        cands0 = self.struct_cands(sv)
+                        idxs = set(range(len(cands0))) if prev is None or key not in prev else set(prev[key])
+                        keep = set()
+                        for ti in idxs:
+                            if ti >= len(cands0):
+                                continue
+                            g, q = cands0[ti]
+                            ok = self.cand_holds(st.facts, g, q)
+                            if ok:
+                                for bs in backs:
+                                    try:
+                                        bv = self.read(bs, r, p)
+                                    except Undecided:
+                                        ok = False
+                                        break
+                                    if not (isinstance(bv, Agg) and bv.name == sv.name):
+                                        ok = False
+                                        break
+                                    bc = self.struct_cands(bv)
+                                    if ti >= len(bc) or not self.cand_holds(bs.facts, bc[ti][0], bc[ti][1]):
+                                        ok = False
+                                        break
+                            if ok:
+                                keep.add(ti)
+                        out[key] = frozenset(keep)
         finally:
             self.write_log = saved
         return out
@@ -1554,6 +1628,22 @@ class Executor:
                     for (r, p_, v_) in leaves:
                         for ti in tinv.get((r, tuple((s_[0], s_[1]) for s_ in p_)), ()):
                             st.facts.add_fact_ge0(self.templates[ti](v_.poly()))
+                    if self.struct_templates:
+                        sl = []
+                        try:
+                            self.struct_leaves(root, path, self.read(st, root, path), sl)
+                        except Undecided:
+                            sl = []
+                        for (r, p_, sv) in sl:
+                            keep = tinv.get(("S", r, tuple((s_[0], s_[1]) for s_ in p_)), ())
+                            cands0 = self.struct_cands(sv)
+                            for ti in keep:
+                                if ti < len(cands0):
+                                    g, q = cands0[ti]
+                                    if g is None:
+                                        st.facts.add_fact_ge0(q)
+                                    else:
+                                        st.facts.add_conditional(g, q)
             finally:
                 self.write_log = saved
 
